@@ -17,11 +17,11 @@ func libName(fn *ssa.Function) string {
 	if o := fn.Origin(); o != nil {
 		fn = o
 	}
-	if fn.Pkg != nil {
-		return fn.Pkg.Pkg.Path() + "." + fn.Name()
-	}
 	if fn.Signature.Recv() != nil {
 		return "(" + TypeName(fn.Signature.Recv().Type()) + ")." + fn.Name()
+	}
+	if fn.Pkg != nil {
+		return fn.Pkg.Pkg.Path() + "." + fn.Name()
 	}
 	return fn.String()
 }
@@ -42,6 +42,7 @@ var TrustedDoc = map[string]string{
 	"slices.Index":          "result = -1 and not mem(s,x), or 0 <= result < len and s[result] = x and no earlier index holds x",
 	"slices.Delete":         "requires 0 <= i <= j <= len; result = s[:i] ++ s[j:]",
  	"strings.Split(s, \"\")": "every element is non-empty; an element starting with a byte < 0x80 has length 1",
+ 	"(*regexp.Regexp).FindStringSubmatch": "returns nil or 1+NumSubexp strings (NumSubexp of package-level regexps is read from the real compiled value)",
 	"strings.Join":          "uninterpreted deterministic function of (elements, length, separator)",
 	"fmt.Errorf":            "returns a non-nil error",
 	"errors.New":            "returns a non-nil error",
@@ -125,6 +126,28 @@ func (ex *Exec) libCall(st *State, fn *ssa.Function, args []Val, pos string) []O
 		ex.AddObl(st, "safety", "safe/slices.Delete@"+pos, pos, g)
 		st.Assume(g)
 		return ret1(st, ex.deleteRange(st, s, i, j))
+	case "(*regexp.Regexp).FindStringSubmatch":
+		ex.trust(name)
+		re, _ := args[0].(Ptr)
+		nsub := ex.Ctx.Declare("regexp_numsubexp", []string{"Ref"}, "Int")
+		n := smt.App(nsub, re.Ref)
+		// the number of groups of a package-level regexp is read from the dump
+		ex.mu.Lock()
+		for g, v := range ex.globalInit {
+			if p, ok := v.(Ptr); ok && p.Ref == re.Ref {
+				if t, ok := ex.Tables[strings.Replace(g, ".", ".regexpSubexp.", 1)]; ok {
+					_ = t
+				}
+				if k, ok := ex.RegexpSubexp[g]; ok {
+					st.Assume(smt.Eq(n, fmt.Sprint(k)))
+				}
+			}
+		}
+		ex.mu.Unlock()
+		arr := ex.Ctx.Fresh("submatch_arr", "(Array Int Str)")
+		ln := ex.Ctx.Fresh("submatch_len", "Int")
+		st.Assume(smt.And(smt.Ge(n, "0"), smt.Or(smt.Eq(ln, "0"), smt.Eq(ln, smt.Add(n, "1")))))
+		return ret1(st, Slice{Arr: arr, Len: ln, Elem: types.Typ[types.String], B: ex.newBacking()})
 	case "strings.Join":
 		ex.trust(name)
 		sl := args[0].(Slice)
